@@ -161,6 +161,25 @@ def stepLine (s : S) (w : List String) : S × List String :=
         | .ok (out, h, it, op) =>
           ({ s with cells := tabulate s.n h, it := it, opened := op, post := o == .postOrder }, [showSeq (o == .postOrder) "seq" out])
     | _, _ => (s, ["bad-op"])
+  -- `riter`: the caller re-uses the iterator object (the model keeps `s.it` between operations anyway)
+  | ["riter", o] =>
+    match order? o with
+    | none => (s, ["bad-op"])
+    | some o =>
+      match iterateAll s.isList s.fuel o s.heap s.it s.root with
+      | .error e => (s, [showErr e])
+      | .ok (out, h, it) => ({ s with cells := tabulate s.n h, it := it, opened := false }, [showSeq (o == .postOrder) "seq" out])
+  | ["riter", o, k] =>
+    match order? o, k.toNat? with
+    | some o, some k =>
+      match iterate s.isList s.fuel o s.heap s.it s.root with
+      | .error e => (s, [showErr e])
+      | .ok (r, h, it) =>
+        match drainK s (k - 1) h it r with
+        | .error e => (s, [showErr e])
+        | .ok (out, h, it, op) =>
+          ({ s with cells := tabulate s.n h, it := it, opened := op, post := o == .postOrder }, [showSeq (o == .postOrder) "seq" out])
+    | _, _ => (s, ["bad-op"])
   | ["resume"] =>
     if s.opened then
       match next s.isList s.fuel s.heap s.it with
